@@ -1702,7 +1702,7 @@ package connect
 //@   ensures |old(rest(reader))| <= 4194304 ==> rest(reader) == []                                          // label: drains-what-is-left-up-to-the-limit
 //@   ensures |old(rest(reader))| <= 4194304 && termerr(reader) == io.EOF ==> res && err == nil             // label: reports-the-end-when-it-reached-it
 //@   ensures |old(rest(reader))| > 4194304 ==> !res                                                        // label: more-than-the-limit-left-is-never-reported-as-drained-however-the-reader-reports-its-end
-//@ func (*grpcClient).NewConn$2(u, call) res
+//@ func (*grpcClient).NewConn$3(u, call) res
 //@   tags C03, C04, C06
 //@   requires call != nil
 //@   assigns rest(call)
